@@ -527,6 +527,7 @@ def bld_pred(which):
         backoff = False
         rr_prev = None
         faulted = False
+        blocked = False       # ops B / b: the services answer Pending to their readiness checks (back-pressure)
         for k, (op, served, act, notes) in enumerate(steps):
             if notes:
                 # '!' notes: a service call that did not start/end within 30 s, an unacknowledged command, a connect error, a second
@@ -569,6 +570,10 @@ def bld_pred(which):
                 paused = op[-1] == "P"
             elif op[0] == "+":
                 backoff = False
+            elif op == "B":
+                blocked = True
+            elif op == "b":
+                blocked = False
             for (c, call, w) in served:
                 if "C01" in which:
                     if c in served_at:
@@ -581,14 +586,17 @@ def bld_pred(which):
                     if w >= W:
                         return "step %d (%s): connection %d served by worker %d of %d" % (k, op, c, w, W)
                 served_at.setdefault(c, k)
-                if "C05" in which and paused and op != "R" and not (op[0] == "Q" and burst_resumes):
+                # (a call that starts at `b` was dispatched before: while the services were not ready the worker left it in its queue)
+                if "C05" in which and paused and op not in ("R", "b") and not (op[0] == "Q" and burst_resumes):
                     return "step %d (%s): connection %d dispatched while the server was paused" % (k, op, c)
             if faulted:
                 continue       # C02/C03/C04 speak about runs without a worker fault
             if "C02" in which and any(a > L for a in act):
                 return "step %d (%s): in progress per worker %s, limit %d" % (k, op, act, L)
             pending = [c for c in tok_of if c not in served_at]
-            if pending and not paused and not backoff and op[0] != "E" and any(a < L for a in act[:W]) and len(act) >= W:
+            if blocked and served and "C07" in which:
+                return "step %d (%s): service call(s) %s started while every service answered Pending to its readiness check" % (k, op, served)
+            if pending and not paused and not backoff and not blocked and op[0] != "E" and any(a < L for a in act[:W]) and len(act) >= W:
                 if "C03" in which or ("C05" in which and (op == "R" or op[0] in "+Q")):
                     return "step %d (%s): connection(s) %s wait although the server runs and in progress per worker is %s with limit %d" % (
                         k, op, pending, act, L)
